@@ -143,3 +143,91 @@ Proof.
     + pose proof (cstart_mono new Pn J (S j) ltac:(lia) ltac:(lia)). lia.
     + pose proof (cstart_mono new Pn j (S J) ltac:(lia) ltac:(lia)). rewrite cstart_S in H by lia. lia.
 Qed.
+
+(* ================= exactly one piece: the pieces PARTITION ================= *)
+Definition gcount (old : list Z) (ps : list piece) (x : Z) : nat := length (filter (fun pc => gcovb old pc x) ps).
+
+Lemma take_count : forall fuel old i s n ps i' s',
+  allpos old -> (i < length old)%nat -> 0 <= s < nth i old 0 -> 0 < n ->
+  cstart old i + s + n <= zsum old -> (length old - i <= fuel)%nat ->
+  take fuel old i s n = (ps, (i', s')) ->
+  forall x, gcount old ps x = if (cstart old i + s <=? x) && (x <? cstart old i + s + n) then 1%nat else 0%nat.
+Proof.
+  induction fuel as [|f IH]; intros old i s n ps i' s' P Hi Hs Hn Hfit Hfuel H; [lia|].
+  cbn [take] in H.
+  destruct (n <? nth i old 0 - s) eqn:E1.
+  - injection H as <- <- <-. intro x. unfold gcount, gcovb. cbn [filter fst snd].
+    destruct ((cstart old i + s <=? x) && (x <? cstart old i + (s + n))) eqn:C;
+      destruct ((cstart old i + s <=? x) && (x <? cstart old i + s + n)) eqn:D; try reflexivity; lia.
+  - destruct (n =? nth i old 0 - s) eqn:E2.
+    + injection H as <- <- <-. intro x. unfold gcount, gcovb. cbn [filter fst snd].
+      destruct ((cstart old i + s <=? x) && (x <? cstart old i + nth i old 0)) eqn:C;
+        destruct ((cstart old i + s <=? x) && (x <? cstart old i + s + n)) eqn:D; try reflexivity; lia.
+    + destruct (take f old (S i) 0 (n - (nth i old 0 - s))) as [ps1 st1] eqn:T.
+      injection H as <- ->.
+      assert (HS : cstart old (S i) = cstart old i + nth i old 0) by (apply cstart_S; lia).
+      assert (Hlt : (S i < length old)%nat).
+      { destruct (Nat.eq_dec (S i) (length old)) as [Eq|]; [|lia].
+        rewrite Eq, cstart_all in HS. lia. }
+      pose proof (nth_pos old (S i) P Hlt).
+      assert (IH' := IH old (S i) 0 (n - (nth i old 0 - s)) ps1 i' s' P Hlt ltac:(lia) ltac:(lia) ltac:(lia) ltac:(lia) T).
+      intro x. specialize (IH' x). unfold gcount in *. cbn [filter]. unfold gcovb at 1. cbn [fst snd].
+      destruct ((cstart old i + s <=? x) && (x <? cstart old i + nth i old 0)) eqn:C; cbn [length]; rewrite IH';
+        destruct ((cstart old (S i) + 0 <=? x) && (x <? cstart old (S i) + 0 + (n - (nth i old 0 - s)))) eqn:D;
+        destruct ((cstart old i + s <=? x) && (x <? cstart old i + s + n)) eqn:F; try reflexivity; lia.
+Qed.
+
+Lemma inter_count : forall new old i s, allpos old -> allpos new -> state_ok old i s ->
+  cstart old i + s + zsum new <= zsum old ->
+  forall j, (j < length new)%nat -> forall x,
+    gcount old (nth j (inter new old i s) []) x =
+    if (cstart old i + s + cstart new j <=? x) && (x <? cstart old i + s + cstart new (S j)) then 1%nat else 0%nat.
+Proof.
+  induction new as [|n t IH]; intros old i s Po Pn St Hfit j Hj; [simpl in Hj; lia|].
+  inversion Pn; subst. pose proof (zsum_nonneg t H2). change (zsum (n :: t)) with (n + zsum t) in Hfit.
+  destruct St as [[Hi Hs]|[Hi Hs]].
+  2:{ subst. rewrite cstart_all in Hfit. lia. }
+  cbn [inter].
+  destruct (take (S (length old)) old i s n) as [ps [i' s']] eqn:T.
+  destruct (take_spec (S (length old)) old i s n ps i' s' Po Hi Hs H1) as (A & B & C & D); [lia|lia|exact T|].
+  destruct j as [|j].
+  - cbn [nth]. intro x. rewrite (take_count (S (length old)) old i s n ps i' s' Po Hi Hs H1 ltac:(lia) ltac:(lia) T x).
+    unfold cstart. simpl.
+    destruct ((zsum (firstn i old) + s <=? x) && (x <? zsum (firstn i old) + s + n)) eqn:E1;
+      destruct ((zsum (firstn i old) + s + 0 <=? x) && (x <? zsum (firstn i old) + s + (n + 0))) eqn:E2;
+      try reflexivity; lia.
+  - cbn [nth]. simpl in Hj. intro x.
+    rewrite (IH old i' s' Po H2 D ltac:(lia) j ltac:(lia) x). rewrite !cstart_cons.
+    destruct ((cstart old i' + s' + cstart t j <=? x) && (x <? cstart old i' + s' + cstart t (S j))) eqn:E1;
+      destruct ((cstart old i + s + (n + cstart t j) <=? x) && (x <? cstart old i + s + (n + cstart t (S j)))) eqn:E2;
+      try reflexivity; lia.
+Qed.
+
+(* every element of the old chunking lies in exactly one piece, and that piece is listed under the new chunk
+   containing the element *)
+Lemma intersect_1d_partition old new x : allpos old -> allpos new -> zsum old = zsum new -> 0 <= x < zsum old ->
+  forall j, length (filter (fun pc => covers pc (loc old 0 x)) (nth j (intersect_1d old new) [])) =
+            if Nat.eqb j (fst (loc new 0 x)) then 1%nat else 0%nat.
+Proof.
+  intros Po Pn Hsum Hx j. unfold intersect_1d.
+  pose proof (loc_spec new x Pn ltac:(lia)) as L. destruct (loc new 0 x) as [J q]. destruct L as (L1 & L2 & L3).
+  cbn [fst].
+  destruct (Nat.lt_ge_cases j (length new)) as [Hj|Hj].
+  2:{ rewrite nth_overflow by (rewrite inter_length; lia). simpl.
+      destruct (Nat.eqb_spec j J); [lia|reflexivity]. }
+  assert (St : state_ok old 0 0).
+  { unfold state_ok. destruct old as [|c t]; [right; auto|left]. inversion Po; subst. simpl. split; lia. }
+  destruct (inter_spec new old 0%nat 0 Po Pn St ltac:(unfold cstart; simpl; lia) j Hj) as [A _].
+  rewrite (filter_ext_in _ (fun pc => gcovb old pc x)).
+  2:{ intros pc Hin. apply covers_gcov; auto. rewrite Forall_forall in A. apply A. exact Hin. }
+  fold (gcount old (nth j (inter new old 0 0) []) x).
+  rewrite (inter_count new old 0%nat 0 Po Pn St ltac:(unfold cstart; simpl; lia) j Hj x).
+  change (cstart old 0) with 0.
+  destruct (Nat.eqb_spec j J) as [->|N].
+  - rewrite cstart_S by lia.
+    destruct ((0 + 0 + cstart new J <=? x) && (x <? 0 + 0 + (cstart new J + nth J new 0))) eqn:E; [reflexivity|lia].
+  - destruct ((0 + 0 + cstart new j <=? x) && (x <? 0 + 0 + cstart new (S j))) eqn:E; [|reflexivity].
+    destruct (Nat.lt_ge_cases j J) as [Lt|Ge].
+    + pose proof (cstart_mono new Pn J (S j) ltac:(lia) ltac:(lia)). lia.
+    + pose proof (cstart_mono new Pn j (S J) ltac:(lia) ltac:(lia)). rewrite cstart_S in H by lia. lia.
+Qed.
